@@ -135,6 +135,32 @@ func (r *Result) Check(cond bool, rule, key, pos, okDetail, badDetail string) bo
 	return cond
 }
 
+// Violations counts the obligations that stay violated once the tables (known findings,
+// reviewed invariants) are taken into account.
+func (r *Result) Violations(t *Tables) int {
+	known := map[string]bool{}
+	for _, k := range t.Known {
+		if k.Property == r.Prop {
+			known[k.Key] = true
+		}
+	}
+	reviewed := map[string]Reviewed{}
+	for _, k := range t.Reviewed {
+		reviewed[k.Key] = k
+	}
+	n := 0
+	for _, o := range r.Obs {
+		if o.Status != Violated || known[o.Key] {
+			continue
+		}
+		if _, ok := lookupReviewed(reviewed, t.Reviewed, o.Key); ok {
+			continue
+		}
+		n++
+	}
+	return n
+}
+
 // Finish applies the tables, prints the verdict lines, writes evidence, returns exit code.
 func (r *Result) Finish(t *Tables, evidenceDir string) int {
 	known := map[string]KnownFinding{}
